@@ -32,7 +32,7 @@ Lemma put_store_frame c now m eid :
   /\ c_ttl (put_store c now m eid) = c_ttl c.
 Proof.
   unfold put_store. destruct (is_submit m); [|split; reflexivity].
-  destruct (sm_sar m) as [[ref sseq] total]. destruct (0 <? total); split; reflexivity.
+  destruct (sm_sar m) as [[ref sseq] total]. destruct ((0 <? total) && (total <=? 255)); split; reflexivity.
 Qed.
 
 (* put(segment): the first segment of a message starts a status cell under a new key; a later one joins the cell of the message
@@ -41,7 +41,7 @@ Definition fresh_cell (m : smsg) (total : Z) : segstat :=
   {| ss_status := map (fun i => (Z.of_nat i, STATUS_SENDING)) (seq 1 (Z.to_nat total)); ss_orig := m; ss_last_resp := None; ss_last_rcpt := None |}.
 
 Lemma put_store_first c now m eid ref sseq total :
-  is_submit m = true -> sm_sar m = (ref, sseq, total) -> 0 < total -> ~ 1 < sseq ->
+  is_submit m = true -> sm_sar m = (ref, sseq, total) -> 0 < total <= 255 -> ~ 1 < sseq ->
   put_store c now m eid =
   {| c_store := dset (c_store c) (sm_seq m) {| e_at := now; e_msg := m; e_id := eid |};
      c_seg := dset (c_seg c) (sm_seq m) (skey ref (sm_seq m), sseq);
@@ -49,13 +49,13 @@ Lemma put_store_first c now m eid ref sseq total :
      c_cur := dset (c_cur c) ref (skey ref (sm_seq m)); c_ttl := c_ttl c |}.
 Proof.
   intros Hs Hsar Ht Hn. unfold put_store. rewrite Hs, Hsar.
-  replace (0 <? total) with true by (symmetry; apply Z.ltb_lt; exact Ht).
+  replace ((0 <? total) && (total <=? 255)) with true by (symmetry; apply andb_true_iff; split; [apply Z.ltb_lt|apply Z.leb_le]; lia).
   replace (1 <? sseq) with false by (symmetry; apply Z.ltb_ge; lia).
   reflexivity.
 Qed.
 
 Lemma put_store_join c now m eid ref sseq total k ss :
-  is_submit m = true -> sm_sar m = (ref, sseq, total) -> 0 < total -> 1 < sseq ->
+  is_submit m = true -> sm_sar m = (ref, sseq, total) -> 0 < total <= 255 -> 1 < sseq ->
   dget ref (c_cur c) = Some k -> dget k (c_stat c) = Some ss ->
   put_store c now m eid =
   {| c_store := dset (c_store c) (sm_seq m) {| e_at := now; e_msg := m; e_id := eid |};
@@ -64,7 +64,7 @@ Lemma put_store_join c now m eid ref sseq total k ss :
      c_cur := c_cur c; c_ttl := c_ttl c |}.
 Proof.
   intros Hs Hsar Ht Hn Hc Hk. unfold put_store. rewrite Hs, Hsar.
-  replace (0 <? total) with true by (symmetry; apply Z.ltb_lt; exact Ht).
+  replace ((0 <? total) && (total <=? 255)) with true by (symmetry; apply andb_true_iff; split; [apply Z.ltb_lt|apply Z.leb_le]; lia).
   replace (1 <? sseq) with true by (symmetry; apply Z.ltb_lt; exact Hn).
   cbn [with_store c_cur c_stat]. rewrite Hc, Hk. reflexivity.
 Qed.
